@@ -371,6 +371,53 @@ def empty_rule(rep, prog, cfg):
               "list would depend on the connection's history" % sorted(set(early)))
 
 
+RENDER_AUDITED = {
+    "CommandList::render|call:Option::unwrap": (1, "pop().unwrap() directly behind `self.len() == 1`"),
+    "CommandList::render|assert:overflow:Add(_,_)": (2, "sum of the lengths of buffers that exist in memory: cannot exceed usize"),
+    "CommandList::render|assert:overflow:Add(_,1_usize)": (1, "length of a buffer in memory plus its line feed"),
+    "CommandList::render|call:BytesMut::with_capacity": (1, "capacity = total length of the commands already in memory plus the two framing constants"),
+}
+
+
+def render_total_rule(rep, prog, cfg):
+    """Writing the batch cannot fail for a long list: the panic-capable constructs reachable from CommandList::render / add /
+    new are enumerated (A7) and must be the audited ones — additions of in-memory lengths.  A subtraction or a capacity that can
+    wrap there (e.g. the pre-sizing formula written with `-`) panics for lists longer than the framing constants."""
+    from .. import panics
+    from ..common import callgraph
+    rule = "C13.render"
+    cg = callgraph(prog)
+    roots = [b.id for n in ("render", "add", "new") for b in body_by_name(prog, "mpd_protocol::command::CommandList::" + n)]
+    if len(roots) != 3:
+        rep.fail(rule + ".anchor", cfg + "/CommandList::render/add/new", "mpd_protocol/src/command.rs", "anchors not found")
+        return
+    sites, R, nb, nblocks = panics.inventory(prog, cg, roots)
+    sites = [x for x in sites if x.body.crate == "mpd_protocol"]
+    rest = []
+    for x in sites:
+        inst = "%s/%s" % (cfg, x.key)
+        if x.kind == "call:core::option::Option::unwrap" and panics.unwrap_guarded_by_test(x.body, x.bb):
+            rep.ok(rule, inst, detail={"where": x.where, "discharged": "unwrap dominated by a test"})
+            continue
+        cv = panics.constant_arithmetic(prog, x)
+        if cv is not None:
+            rep.ok(rule, inst, detail={"where": x.where, "discharged": "arithmetic on compile-time constants, result %d fits" % cv})
+            continue
+        rest.append(x)
+    am = panics.AuditMatcher(RENDER_AUDITED, rest)
+    seen_n = {}
+    for x in rest:
+        aud, k = am.lookup(x)
+        seen_n[k] = seen_n.get(k, 0) + 1
+        inst = "%s/%s#%d" % (cfg, k, seen_n[k])
+        if aud is not None:
+            rep.ok(rule, inst, detail={"where": x.where, "audited": aud[1]})
+        else:
+            rep.fail(rule, inst, x.where, "unaudited panic-capable construct `%s` in %s on the way a command list is rendered: a list of ordinary "
+                     "commands could abort the caller instead of being written as one batch" % (x.kind, x.fn))
+    rep.floor(rule, cfg + "/panic-capable constructs on the render path", len(sites), 4)
+
+
 def run(rep, progs, tier):
     rep.explanation = (
         "Rule-based static analysis (no execution). For each of the 8 tuple impls (arity read from the self "
@@ -391,6 +438,7 @@ def run(rep, progs, tier):
         tuple_rule(rep, prog, cfg)
         vec_rule(rep, prog, cfg)
         render_rule(rep, prog, cfg)
+        render_total_rule(rep, prog, cfg)
         # "one block holding the N command lines": no line inside the block may itself be a framing word, so Command::build refuses
         # all three (decided by the C07 machinery on the validator of Command::build)
         from .C07 import build_validator, list_words_rule
